@@ -14,7 +14,7 @@ from ..gfi import distribution, switch
 from ..gfi.common import Obs
 from ..program import AnalysisError
 from ..rules import is_call, is_mcall
-from ..terms import C, Evaluator, G, P, is_t, show
+from ..terms import C, Evaluator, G, P, is_t, show, mk_cmp, mk_phi
 from . import C19, C20
 
 # site -> which rule family judges that its concrete and traced arms agree
@@ -177,7 +177,7 @@ def run(chk, prog):
     gi, gt = got.get("int"), got.get("traced")
     oki = is_t(gi, "index") and gi[2] == IDX and is_call(gi[1], "list") and gi[1][2] == (IT,)
     okt = is_t(gt, "ctor") and gt[1] == "Switch" and gt[2][0] == IDX and is_t(gt[2][1], "fam") and gt[2][1][1] == ("enumerate", IT) \
-        and gt[2][1][2] == ("call", ("attr", ("elem", IT), "mask"), (("cmp", "==", ("enumidx", IT), IDX),), ())
+        and gt[2][1][2] == ("call", ("attr", ("elem", IT), "mask"), (mk_cmp("==", ("enumidx", IT), IDX),), ())
     chk.require(oki and okt, "CHM-CONCRETE", "Switch.build", "concrete int index vs traced index", derived={k: show(v)[:120] for k, v in got.items()}.__str__(),
                 expected="int: the idx-th map; traced: every map masked by (position == idx) - the same single visible map", where=f"{sw.module.rel}:{sw.methods['build'].lineno}")
     # ---------------------------------------------------------------- PYTREE-DICT-KEYS
